@@ -368,6 +368,10 @@ PINNED = [   # the minimal failing input of every known finding (so that the fin
                                     "struct S { long a; int b; }; struct T { double d; char c; }; union U { int i; double d; }; int a[3];\n"
                                     "extern struct S x; struct S x; _Alignas(16) char y[3]; _Thread_local long z; char *str = \"abc\";\n"
                                     "long use(void) { return w.a + u.c + v.i; }\n"),
+    # C23 variadic functions without a named parameter: definitions, direct calls and calls through a pointer with 0-3
+    # arguments of classes w, l, d, s (promoted) and aggregate; the marker is then the FIRST item of the argument list.
+    # (Not in WfGen: gcc 12 / clang 14 reject `int f(...)` in C, so the generator's audit could not accept the programs.)
+    ("variadic-no-named-parameter", 'typedef __builtin_va_list va_list;\nstruct S { int m; long n; };\nint v0(...);\nint v1(...) { va_list ap; int t; __builtin_va_start(ap); t = __builtin_va_arg(ap, int); __builtin_va_end(ap); return t; }\ndouble v2(...) { return 1.5; }\nint call0(int i, long l, double d, float f, struct S s, int (*fp)(...)) {\n\tint r = v0() + v0(i) + v0(l, d) + v0(d, i, l) + v0(f) + v0(s) + v0(s, i, d) + v1(i, d) + (int)v2(l);\n\tr += fp(i) + fp(d, l) + fp(s, f, i) + fp();\n\treturn r;\n}\n'),
     # wide arrays filled exactly by a wide literal (DataSize through the H6-lite sizes): top level, member, 2-D row
     ("wide-exact-fit", "unsigned short a[2] = u\"ab\"; unsigned b[1] = U\"a\"; struct { unsigned short s[2]; char c; } c = {u\"ab\", 1};\n"
                        "unsigned short d[2][2] = {u\"ab\", u\"c\"}; unsigned e[2][1] = {U\"a\", U\"b\"}; unsigned short f[3] = u\"ab\";\n"
